@@ -119,10 +119,10 @@ def closureSteps : Nat → Nat → List CStep
   | _, 0 => []
   | i, n + 1 => .closure i :: closureSteps (i + 1) n
 
-/-- the order of do_spawn's child branch -/
+/-- the order of do_spawn's child branch (the gid before the uid since 925c7e5) -/
 def childSteps (c : Config) : List CStep :=
-  c.streams.map .dup2 ++ (if c.cwd then [.chdir] else []) ++ (if c.uid then [.setuid] else []) ++
-    (if c.gid then [.setgid] else []) ++ (if c.pgroup then [.setpgid] else []) ++ closureSteps 0 c.closures ++ [.execve]
+  c.streams.map .dup2 ++ (if c.cwd then [.chdir] else []) ++ (if c.gid then [.setgid] else []) ++
+    (if c.uid then [.setuid] else []) ++ (if c.pgroup then [.setpgid] else []) ++ closureSteps 0 c.closures ++ [.execve]
 
 /-- child-side oracle: the index of the step that fails and its errno (`none` = an error without errno,
     only a closure can produce one) -/
